@@ -6,6 +6,9 @@ HERE = os.path.dirname(os.path.dirname(os.path.abspath(__file__)))
 
 # id -> (technique, level text, level note, design ref)
 CLAIMED = {
+ "C20": ("type lemma via types.Implements + closed allow-list information flow over the SSA of the scrubbers + taint-with-sanitisers at the log call sites",
+         "Decides that with scrubbing on, whenever a net.Error is in the chain (which every address-carrying standard error type is, by types.Implements), the text ElideError returns is built only from constants, three allow-listed cause/operation fields, %T formatting, errno text and recursive scrubber calls; ElideAddr returns only constants and the port; with unsafe logging both return their input; every log call in package main prints only sanitised errors/addresses (named exemptions). The field allow-list is trusted: DNSError.Err text produced by the Go resolver may itself embed resolver addresses.",
+         "go/types+go/ssa faithful; field table of checker/c20.go; syscall.Errno text is address-free", "DESIGN.md section 4, C20"),
  "C08": ("E7 expression-tree reconstruction of the ntor computations compared with spec terms + no-write-through-parameter ownership rules over go/ssa",
          "Decides that status, KEY_SEED and AUTH of both roles are the deployed expressions over the right operands (each X25519 output zero-tested before reuse, all five inputs hashed in the deployed order, roles crossed correctly), that Kdf is one length-independent HKDF stream, and that Kdf/handshakes/key constructors neither modify nor mangle their inputs. Equality with an independent computation is not decided.",
          "go/types+go/ssa faithful; checker/spec/ntor.json transcribes the deployed ntor", "DESIGN.md section 4, C08"),
